@@ -210,7 +210,19 @@ def gen_garbage_ops(rng, n):
             ops.append(["a", c])
             for _ in range(rng.randrange(0, 4)):
                 ops.append([rng.choice(["n", "n", "e"])])
-        cases.append({"k": "buf", "ops": ops})
+        case = {"k": "buf", "ops": ops}
+        if rng.random() < 0.3:
+            # the single-piece constructor (TransferReader: a whole backup file in memory): the reader starts on a
+            # buffer that already holds every record, behind a skipped prefix of [start] bytes
+            recs = [[rng.randrange(256) for _ in range(rng.randrange(1, 50))] for _ in range(rng.randrange(1, 5))]
+            start = rng.choice([0, 0, 1, 5, 12])
+            buf = [rng.randrange(256) for _ in range(start)] + [b for r_ in recs for b in frame(r_)]
+            if rng.random() < 0.3:
+                buf += [0] * rng.randrange(1, 4)
+            case["init"] = {"buf": buf, "start": start}
+            case["init_records"] = recs
+            case["ops"] = [[rng.choice(["n", "d", "e"])] for _ in range(rng.randrange(1, 4))] + [["d"]] + ops
+        cases.append(case)
     return cases
 
 
@@ -432,6 +444,23 @@ def run(chk, replay=None):
             chk.classify("chunking", "records decoded under chunking %s differ from the written ones" % c["lens"][:8],
                          {"suite": "codec", "case": c, "want": want, "got": got})
 
+    # the single-piece constructor: every record of the buffer comes out, in order, before anything appended later
+    for c, r in zip(garb_cases, impl_garb):
+        if not c.get("init"):
+            continue
+        n_eval += 1
+        want = [frame(x) for x in c["init_records"]]
+        got = []
+        if r.get("r") == "ok":
+            for o in r["out"]:
+                if isinstance(o, dict) and "d" in o:
+                    got += o["d"]
+                elif isinstance(o, dict) and "m" in o:
+                    got.append(o["m"])
+        if got[:len(want)] != want:
+            chk.classify("with-data", "a reader built from a whole buffer (new_with_data, %d records behind %d skipped bytes) returns %s"
+                         % (len(want), c["init"]["start"], "no record at all" if not got else "other records than the written ones"),
+                         {"suite": "codec", "case": {k: c[k] for k in ("k", "ops", "init")}, "want": want[:3], "got": got[:3]})
     for c, r in zip(file_cases, impl_file):
         want = file_oracle(c)
         if want is not None and canon_fout_impl(r) != want:
@@ -446,7 +475,8 @@ def run(chk, replay=None):
                  + ["read_varint %s %d%%nat" % (lib.coq_list(c["bytes"]), c["off"]) for c in dec_cases]
                  + ["run_chunks (mk_stream %s %s) %s" % (coq_recs(c["recs"]), lib.coq_list(c["pad"]), coq_nats(c["lens"]))
                     for c in stream_cases]
-                 + ["run_ops mbr_new %s" % coq_ops(c["ops"]) for c in garb_cases]
+                 + [("run_with_data %s %d%%nat %s" % (lib.coq_list(c["init"]["buf"]), c["init"]["start"], coq_ops(c["ops"])))
+                    if c.get("init") else "run_ops mbr_new %s" % coq_ops(c["ops"]) for c in garb_cases]
                  + ["run_file %s %d%%nat %s" % (lib.coq_list(c["data"]), c["start"], coq_fops(c["ops"])) for c in file_cases])
         vals = lib.coq_eval_sharded("c20", HEADER, exprs, per=120 if tier == "quick" else 400)
     except RuntimeError as ex:
